@@ -22,6 +22,8 @@ pub struct Profile {
     pub w_mpk: u32,
     /// serialise a random object and send its bytes to the wire model
     pub w_ser: u32,
+    /// evaluate the tracing relation of a random user key on the real scalars
+    pub w_trace: u32,
     /// percentage of deliberately malformed arguments
     pub malformed_pct: u32,
     /// percentage of hybridized attributes
@@ -52,6 +54,7 @@ impl Profile {
             w_rollback: 0,
             w_mpk: 0,
             w_ser: 0,
+            w_trace: 0,
             malformed_pct: 10,
             hybrid_pct: 30,
             matrix_often: false,
@@ -517,6 +520,13 @@ impl HistGen {
         let i = self.rng.below(n);
         self.emit(format!("ser {c}{i}"));
     }
+    pub fn op_trace(&mut self) {
+        if self.next_u == 0 {
+            return;
+        }
+        let i = self.rng.below(self.next_u);
+        self.emit(format!("trace_check U{i}"));
+    }
     pub fn op_mpk(&mut self) {
         let k = self.new_k();
         self.emit(format!("mpk M0 K{k}"));
@@ -569,7 +579,7 @@ impl HistGen {
         let p = self.p.clone();
         let ws = [
             p.w_edit, p.w_update, p.w_rekey, p.w_prune, p.w_keygen, p.w_refresh, p.w_encaps, p.w_recaps,
-            p.w_roundtrip, p.w_rollback, p.w_mpk, p.w_ser,
+            p.w_roundtrip, p.w_rollback, p.w_mpk, p.w_ser, p.w_trace,
         ];
         let tot: u32 = ws.iter().sum();
         let mut r = (self.rng.next() % tot as u64) as u32;
@@ -588,7 +598,8 @@ impl HistGen {
                     8 => self.op_roundtrip(),
                     9 => self.op_rollback(),
                     10 => self.op_mpk(),
-                    _ => self.op_ser(),
+                    11 => self.op_ser(),
+                    _ => self.op_trace(),
                 }
                 if self.p.matrix_often && self.lines.len() > before && matches!(k, 5 | 6 | 7) {
                     self.emit("matrix".into());
